@@ -3,6 +3,7 @@ import Drv.Common
 import AcmedVerif.Model.Tacd
 import AcmedVerif.Model.Ident
 import AcmedVerif.Model.Idna
+import AcmedVerif.Model.Lower
 import AcmedVerif.Spec.C16
 import AcmedVerif.Spec.C17
 import AcmedVerif.Spec.C01Ident
@@ -40,7 +41,7 @@ def opAlpnSelect (j : Json) : Json :=
   | none => Json.mkObj [("selected", Json.null)]
 
 def opIdna (j : Json) : Json :=
-  match Idna.toIdna (str j "s").toList with
+  match Lower.toIdnaFull (str j "s").toList with
   | some r => Json.mkObj [("ok", ofChars r)]
   | none => Json.mkObj [("rejected", true)]
 
